@@ -172,6 +172,13 @@ func verifyPageReachable(p *common.Page, hwm common.Pgid, stack []common.Pgid, r
 	} else if !p.IsBranchPage() && !p.IsLeafPage() {
 		ch <- fmt.Errorf("page %d: invalid type: %s (stack: %v)", int(p.Id()), p.Typ(), stack)
 	}
+
+	// The overflow pages of a reachable page must not be free either.
+	for i := common.Pgid(1); i <= common.Pgid(p.Overflow()); i++ {
+		if freed[p.Id()+i] {
+			ch <- fmt.Errorf("page %d: reachable freed", int(p.Id()+i))
+		}
+	}
 }
 
 // recursivelyCheckPageKeyOrder verifies database consistency with respect to b-tree
